@@ -103,7 +103,9 @@ func scenarios() []scenario {
 	// readers that negotiated RTP/AVP/TCP inside TLS; RTP through ServerStream.WritePacketRTP, RTCP
 	// APP packets through ServerStream.WritePacketRTCP of every media. Appended last: the seeds and
 	// names of the scenarios above do not depend on them.
-	mp := run.Pick(6000, 70000)
+	// every flow wraps once (it starts 60..400 packets before the wrap); the long conversations
+	// above cover further wraps
+	mp := run.Pick(2500, 20000)
 	mj := func() []int { return []int{mp/2 + r.Intn(mp/4)} } // a secure late joiner after the wrap, next to the plain peers
 	add(scenario{Kind: "play", Transport: "udp", Extra: []string{"tcp"}, PlainPeers: 2, Formats: []int{2, 1}, Packets: mp, Joiners: mj()})
 	add(scenario{Kind: "play", Transport: "tcp", Extra: []string{"udp"}, PlainPeers: 1, Formats: []int{1, 1}, Packets: mp, Joiners: mj()})
@@ -155,6 +157,16 @@ func main() {
 		scs, prs, redirects = keep, nil, false
 	}
 
+	if skip := os.Getenv("VERIF_C17_SKIP"); skip != "" { // development aid (A/B timing): leave matching scenarios out
+		var keep []scenario
+		for _, sc := range scs {
+			if !strings.Contains(sc.Name, skip) {
+				keep = append(keep, sc)
+			}
+		}
+		scs = keep
+	}
+
 	// (d) downgrade probes first (cheap)
 	if len(prs) > 0 {
 		km := captureKeyMgmt()
@@ -167,6 +179,23 @@ func main() {
 			runRedirect(code, false)
 		}
 		runRedirect(base.StatusFound, true)
+	}
+
+	// execution order: the mixed-profile scenarios (defined last, so that the names and seeds of
+	// the others stay what they were) start right after the two long conversations that decide
+	// the wall time, not after everything else
+	if len(scs) > 4 {
+		var ord, mixed []scenario
+		for _, sc := range scs {
+			if sc.PlainPeers > 0 {
+				mixed = append(mixed, sc)
+			} else {
+				ord = append(ord, sc)
+			}
+		}
+		if len(ord) >= 4 {
+			scs = append(append(append([]scenario(nil), ord[:4]...), mixed...), ord[4:]...)
+		}
 	}
 
 	// scenarios, a few at a time (each one is concurrent inside)
